@@ -134,7 +134,8 @@ const (
 	hAlnumBoth          // a-z A-Z 0-9 - _
 	hSchemeChars        // a-z A-Z 0-9 + - .
 	hDigits
-	hHex
+	hHex      // 0-9 a-f
+	hHexUpper // A-F
 )
 
 // hSymText: n symbolic bytes of a character class (every class of a byte is a separate path family inside
@@ -160,7 +161,9 @@ func hSymText(n int, class int) string {
 		case hDigits:
 			vAssume(digit)
 		case hHex:
-			vAssume(digit || c >= 'a' && c <= 'f' || c >= 'A' && c <= 'F')
+			vAssume(digit || c >= 'a' && c <= 'f')
+		case hHexUpper:
+			vAssume(c >= 'A' && c <= 'F')
 		}
 		b[i] = c
 	}
@@ -207,7 +210,7 @@ func hGenRegName() hHost {
 	plain := true
 	nl := vLen(0, vParam("labels", 1))
 	for i := 0; i < nl; i++ {
-		l := hSymText(vLen(0, vParam("lab", 2)), labelClass)
+		l := hSymText(vLen(0, vParam("lab", 1)), labelClass)
 		if len(l) == 0 {
 			plain = false
 		}
@@ -225,7 +228,7 @@ func hGenRegName() hHost {
 		labels = append(labels, hCased(hReservedTLDs[vChoice(len(hReservedTLDs))], vParam("fullcase", 3)))
 	case 2:
 		vCover("gen:reserved-sld")
-		labels = append(labels, hCased("example", 0), hCased([]string{"com", "net", "org"}[vChoice(3)], 0))
+		labels = append(labels, hCased("example", 0), hCased([]string{"com", "net", "org"}[vChoice(3)], vParam("fullcase", 3)-1))
 	}
 	if vBool() {
 		vCover("gen:trailing-dot")
@@ -282,9 +285,9 @@ func hGenIPv6() hHost {
 	case 4:
 		body = "::ffff:" + hSymText(1, hDigits) + "." + hSymText(1, hDigits) + "." + hSymText(1, hDigits) + "." + hSymText(1, hDigits)
 	case 5:
-		body = h() + ":" + h() + ":" + h() + ":" + h() + ":" + h() + ":" + h() + ":" + h() + ":" + h()
+		body = h() + ":" + hSymText(1, hHexUpper) + ":0:0:0:0:0:" + h()
 	case 6:
-		body = h() + h() + h() + h() + "::"
+		body = h() + hSymText(1, hHexUpper) + "0" + h() + "::"
 	}
 	host := hHost{ipv6: true}
 	zl := vLen(0, vParam("zone", 1))
@@ -372,7 +375,7 @@ func H20a() {
 	switch vChoice(3) {
 	case 0:
 		vCover("space:host")
-		if vBool() {
+		if vParam("httphost", 0) > 0 && vBool() {
 			scheme = "http"
 		}
 		switch vChoice(4) {
